@@ -53,15 +53,6 @@ SCENARIOS_OF = {
     "Logging": ["LOG", "LOG+AsyncLogging"],
 }
 
-# the quick tier runs these (one per operation family); the thorough tier runs every scenario
-QUICK_SCENARIOS = [
-    "EventLoop::mix", "EventLoop::quit", "EventLoop::queueSize", "EventLoop::cancel",
-    "TcpConnection::mix", "TcpConnection::send", "TcpConnection::shutdown", "TcpConnection::forceClose",
-    "TcpServer::start", "TcpClient::mix", "TcpClient::connection",
-    "ThreadPool::run+stop", "BlockingQueue", "BoundedBlockingQueue", "CountDownLatch",
-    "AsyncLogging::append", "LOG+AsyncLogging",
-]
-
 TSAN_OPTIONS = "halt_on_error=0 exitcode=0 report_thread_leaks=0 second_deadlock_stack=1 history_size=4 atexit_sleep_ms=50"
 ASAN_OPTIONS = "detect_leaks=0 abort_on_error=0 exitcode=77"
 
@@ -332,8 +323,8 @@ class Prop:
                   "started_) are covered only for calls on the owner thread; on a foreign thread they precede the abort.")
     rule = ("static: all rows/fields/confined operations of the generated table, re-evaluated in Python and compared with the Lean "
             "definitions, plus every single-edit mutant of every row (drop a lock, drop an owner fact, change access kind, root "
-            "kind, assert flag) compared between Python and Lean; dynamic: TSan scenarios (quick: one per operation family, few "
-            "iterations; thorough: all 30, more iterations, derived seeds, plus ASan), abort children for every confined operation "
+            "kind, assert flag) compared between Python and Lean; dynamic: TSan scenarios (all 30 in both tiers; quick: 6 iterations, "
+            "one seed; thorough: 40 iterations, three derived seeds, plus ASan), abort children for every confined operation "
             "in foreign and owner mode (thorough: asserts on and NDEBUG); a case is non-trivial when the owning side did work "
             "(functors ran / the child reached READY); distinct = distinct (scenario|child|check, outcome) pairs")
     trusted_base = [
@@ -707,7 +698,8 @@ class Prop:
                         fn = m.group(1)
                         in_init = False
                     if fn and not in_body:
-                        if code.startswith("{"):
+                        # muduo puts the opening brace at column 0 of its own line; accept `) {` as well
+                        if code.startswith("{") or code.rstrip().endswith("{"):
                             in_body = True
                         continue
                     if in_body and code.startswith("}"):
@@ -848,8 +840,9 @@ class Prop:
         rc, out, _ = sh([exe, "list"], timeout=30)
         all_scen = [s for s in out.split("\n") if s]
         thorough = not ctx.quick() or ctx.search_mode
-        names = all_scen if thorough else [s for s in QUICK_SCENARIOS if s in all_scen]
-        iters = 25 if thorough else 4
+        # the scenarios are short (tens of milliseconds each under TSan): both tiers run every one of them
+        names = all_scen
+        iters = 40 if thorough else 6
         seeds = [ctx.seed] if ctx.quick() and not ctx.search_mode else [ctx.seed, ctx.seed * 7919 + 1, ctx.seed * 104729 + 2]
         ctx.extra["scenarios"] = {"available": len(all_scen), "run": names, "iterations": iters, "seeds": seeds,
                                   "flavours": ["tsan"] + ([] if ctx.quick() else ["asan"])}
